@@ -70,6 +70,22 @@ def new_content(case):
     return bytes(out)
 
 
+def full_content(case):
+    """Bytes of all the writes of the body, also those an interruption prevented."""
+    out = bytearray()
+    for step in case['body']:
+        if step[0] == 'write':
+            out.extend(step[1].encode('utf-8') if case.get('text_mode') else bytes.fromhex(step[1]))
+    return bytes(out)
+
+
+def steps_before_raise(case):
+    for i, step in enumerate(case['body']):
+        if step[0] == 'raise':
+            return i
+    return len(case['body'])
+
+
 def body_raises(case):
     return any(s[0] == 'raise' for s in case['body'])
 
@@ -109,7 +125,7 @@ def make_saver(case, dest):
 
 
 class Result:
-    __slots__ = ('fs', 'sim', 'exc', 'crashed', 'entered', 'body_done', 'pre_inos', 'pre_state')
+    __slots__ = ('fs', 'sim', 'exc', 'crashed', 'entered', 'body_done', 'pre_inos', 'pre_state', 'other_thread')
 
 
 WARM_BYTES = b'EARLIER SAVE BY THE SAME SAVER'
@@ -335,6 +351,8 @@ def gen_workload(rng, faults=False):
                 case.pop('reuse', None)
     if rng.random() < 0.15:
         case['entry'] = 'class'     # AtomicSaver(...) instead of atomic_save(...)
+    if faults and rng.random() < 0.25:
+        case['other_thread'] = True     # C05 also lets another thread save another file at every point of this save
     return case
 
 
